@@ -390,21 +390,6 @@ class OpsMixin:
             b = self.int_range_bits(v)
             if b is not None:
                 return SymFloat(ival=v)
-            if isinstance(v, SymInt) and self.must(self.cmp("LtE", v, 2 ** 64)) and self.must(self.cmp("GtE", v, -(2 ** 64))):
-                # float(int) beyond 2**53, exactly: round to nearest, ties to even, on 53 significant bits - the result
-                # is again an integer, expressed in integer arithmetic (one case per binade)
-                a = z3.If(v.t < 0, -v.t, v.t)
-                res = a
-                for k in range(63, 52, -1):
-                    u = 2 ** (k - 52)
-                    q = a / u
-                    r = a % u
-                    up = z3.Or(r > u // 2, z3.And(r == u // 2, q % 2 == 1))
-                    res = z3.If(a >= 2 ** k, (q + z3.If(up, 1, 0)) * u, res) if k == 63 else \
-                        z3.If(z3.And(a >= 2 ** k, a < 2 ** (k + 1)), (q + z3.If(up, 1, 0)) * u, res)
-                res = z3.If(a >= 2 ** 64, a, res)
-                rv = self.define_var("f_of_int", z3.If(v.t < 0, -res, res), -(2 ** 64), 2 ** 64)
-                return SymFloat(ival=rv)
             return SymFloat(quot=(v, 1))      # float(int) is correctly rounded
         return v
 
@@ -1134,6 +1119,20 @@ class OpsMixin:
             self.stats["lemma_s"] += time.time() - t0
         return LEMMAS[key] == "unsat"
 
+    def round_int_to_double(self, v):
+        """the integer value of float(n) for |n| <= 2**64: round to nearest, ties to even, on 53 significant bits,
+        expressed in integer arithmetic (one case per binade)"""
+        a = z3.If(v.t < 0, -v.t, v.t)
+        res = a
+        for k in range(63, 52, -1):
+            u = 2 ** (k - 52)
+            q = a / u
+            r = a % u
+            up = z3.Or(r > u // 2, z3.And(r == u // 2, q % 2 == 1))
+            cond = a >= 2 ** k if k == 63 else z3.And(a >= 2 ** k, a < 2 ** (k + 1))
+            res = z3.If(cond, (q + z3.If(up, 1, 0)) * u, res)
+        return self.define_var("f_of_int", z3.If(v.t < 0, -res, res), -(2 ** 64), 2 ** 64)
+
     def float_to_int(self, v, mode="trunc"):
         """int(f) / math.floor(f) / math.ceil(f)"""
         if v.ival is not None:
@@ -1155,6 +1154,9 @@ class OpsMixin:
             return self.rational(v)[0]          # an integer-valued decimal of <= 15 digits: exact
         if v.real is not None or v.dec is not None:
             return self.real_to_int(self.real_of(v), mode)
+        if v.quot is not None and v.quot[1] == 1 and isinstance(v.quot[0], SymInt) and \
+                self.must(self.cmp("LtE", v.quot[0], 2 ** 64)) and self.must(self.cmp("GtE", v.quot[0], -(2 ** 64))):
+            return self.round_int_to_double(v.quot[0])       # int(float(n)): float(n) is an integer already
         if v.quot is not None:
             a, k = v.quot
             bits = None
